@@ -13,6 +13,8 @@ Import-free executable model of the layer-based statevector backends of
     _opt_einsum_ignoring_ones                       (lines 490-659)  -> `onesEinsum` (`scanInit`, `scanStep`,
                                                                         `splitRun`, `flush`, `mkLegs`)
 
+  (the item-by-item form of a layer for BinaryBackend, lines 250-293: qubit lists)         -> `itemQubits`
+
 The model describes the code AFTER the two minimal repairs
   D7  StandardBackend: iterate over the nested list instead of `np.array(nested, dtype=object)`,
   D8  EfficientBackend high regime: `np.atleast_2d(ft.reduce(np.kron, chunk[:]))`.
